@@ -15,7 +15,7 @@ fn val(u: &mut Unstructured) -> Result<Val> {
 
 fn op(u: &mut Unstructured, nc: u8, nt: u8) -> Result<Op> {
     let c = u.int_in_range(0..=nc - 1)?;
-    Ok(match u.int_in_range(0u8..=28)? {
+    Ok(match u.int_in_range(0u8..=29)? {
         0..=4 => Op::Load(c),
         5 | 6 => Op::LoadFull(c),
         7 => Op::Hold(c, u.int_in_range(1u8..=11)?),
@@ -50,6 +50,7 @@ fn op(u: &mut Unstructured, nc: u8, nt: u8) -> Result<Op> {
         25 => Op::TempCont(u.int_in_range(0u8..=11)?, u.arbitrary()?),
         26 => Op::Quiesce,
         27 => Op::Aba(c),
+        28 => Op::Recycle(c, u.int_in_range(0..=nc - 1)?),
         _ => Op::CacheLoad(c),
     })
 }
